@@ -181,6 +181,10 @@ class DeviceInfoCache:
         if isinstance(key, int):
             device_info = self.cache.get(key, None)
 
+        elif isinstance(key, DeviceInfo):
+            # the state machines pass the record they already looked up
+            device_info = key
+
         elif not isinstance(key, Address):
             raise TypeError("key must be integer or an address")
 
